@@ -45,6 +45,8 @@ type opData struct {
 	router bool
 	// bySymbol: the coin of the message carries the token's symbol as denom
 	bySymbol bool
+	// split: the hook receipt carries the amount as two events (1 and the rest)
+	split bool
 }
 
 // Driver implements mc.Driver.
@@ -134,6 +136,8 @@ func (d *Driver) Enabled(e *mc.Env, s *mc.State) []mc.Op {
 	add("to-erc20(A,1-by-symbol,B)", opData{kind: "to", who: "A", to: "B", amt: one, bySymbol: true})
 	add("hook-to-native(B,3,A)", opData{kind: "hook", who: "B", to: "A", amt: sdkmath.NewInt(3)})
 	add("hook-to-native(B,all+1,A)", opData{kind: "hook", who: "B", to: "A", rel: "all+1"})
+	// one EVM transaction whose receipt carries two SwapToNative events for the same receiver (1 + 2)
+	add("hook-to-native(B,1+2,A,one-receipt)", opData{kind: "hook", who: "B", to: "A", amt: sdkmath.NewInt(3), split: true})
 	// governance switches the ERC20 feature off / on: conversions attempted while it is off must fail as a whole
 	add("erc20-off", opData{kind: "switch", rel: "off"})
 	add("erc20-on", opData{kind: "switch", rel: "on"})
@@ -241,11 +245,18 @@ func (d *Driver) Apply(e *mc.Env, s *mc.State, op mc.Op) []mc.Finding {
 					return nil, err
 				}
 				ev := contracts.ERC20TokenContract.ABI.Events[contracts.EventSwapToNative]
-				data, err := ev.Inputs.Pack(eth(od.who), mc.Addr(od.to).String(), amt.BigInt())
-				if err != nil {
-					return nil, err
+				parts := []*big.Int{amt.BigInt()}
+				if od.split {
+					parts = []*big.Int{big.NewInt(1), new(big.Int).Sub(amt.BigInt(), big.NewInt(1))}
 				}
-				receipt := &ethtypes.Receipt{Logs: []*ethtypes.Log{{Address: d.contract, Topics: []common.Hash{ev.ID}, Data: data}}}
+				receipt := &ethtypes.Receipt{}
+				for _, pa := range parts {
+					data, err := ev.Inputs.Pack(eth(od.who), mc.Addr(od.to).String(), pa)
+					if err != nil {
+						return nil, err
+					}
+					receipt.Logs = append(receipt.Logs, &ethtypes.Log{Address: d.contract, Topics: []common.Hash{ev.ID}, Data: data})
+				}
 				return &v1.MsgSwapFromERC20Response{}, e.Token.Hooks().PostTxProcessing(ctx, nil, receipt)
 			}, &v1.MsgSwapFromERC20{WantedAmount: mc.CI(unitA, amt), Sender: mc.Addr(od.who).String(), Receiver: mc.Addr(od.to).String()})
 		}
